@@ -265,30 +265,62 @@ class FrameAnalysis(ast.NodeVisitor):
         return self.results
 
 
+def module_mutables(tree):
+    mutables = {}
+    for node in tree.body:
+        targets, value = [], None
+        if isinstance(node, ast.Assign):
+            targets, value = node.targets, node.value
+        elif isinstance(node, ast.AnnAssign) and node.value is not None:
+            targets, value = [node.target], node.value
+        for t in targets:
+            if isinstance(t, ast.Name) and not (isinstance(value, ast.Constant) and isinstance(value.value, (str, int, float, bool, type(None)))):
+                mutables[t.id] = node.lineno
+    return mutables
+
+
 def analyse_repo(registry):
     out = []
     functions = []
+    own = {m: module_mutables(registry.tree[m]) for m in MODULES}
+    fn_nodes = {}
     for m in MODULES:
         tree = registry.tree[m]
-        mutables = {}
-        for node in tree.body:
-            targets, value = [], None
-            if isinstance(node, ast.Assign):
-                targets, value = node.targets, node.value
-            elif isinstance(node, ast.AnnAssign) and node.value is not None:
-                targets, value = [node.target], node.value
-            for t in targets:
-                if isinstance(t, ast.Name) and not (isinstance(value, ast.Constant) and isinstance(value.value, (str, int, float, bool, type(None)))):
-                    mutables[t.id] = node.lineno
+        mutables = dict(own[m])
+        for node in tree.body:          # `from dsw.<other> import <mutable object>`: the imported name is the same shared object
+            if isinstance(node, ast.ImportFrom) and node.module and node.module.startswith("dsw."):
+                src = node.module.split(".", 1)[1]
+                for a in node.names:
+                    if src in own and a.name in own[src]:
+                        mutables[a.asname or a.name] = node.lineno
         for node in tree.body:
             if isinstance(node, ast.FunctionDef):
                 q = f"dsw.{m}.{node.name}"
                 fa = FrameAnalysis(q, node, mutables)
                 out += fa.analyse()
                 functions.append(q)
+                fn_nodes[q] = node
                 # decorators that keep state between calls (caches) break 'fresh process' equivalence
                 for d in node.decorator_list:
                     name = ast.unparse(d)
                     if any(k in name for k in ("cache", "memo", "lru")):
                         out.append(Result(f"{q}:purity:stateful-decorator@{node.lineno}", False, node.lineno, f"decorator {name} keeps results between calls"))
+    # purity is inherited along calls inside the package: a function that calls an impure library function is impure as well
+    by_name = {q.rsplit(".", 1)[1]: q for q in functions}
+    calls = {q: {by_name[c.func.id] for c in ast.walk(n) if isinstance(c, ast.Call) and isinstance(c.func, ast.Name) and c.func.id in by_name} - {q}
+             for q, n in fn_nodes.items()}
+    impure = {q for q in functions if any(r.name.startswith(q + ":purity:") and not r.ok for r in out)}
+    reported = set()
+    changed = True
+    while changed:
+        changed = False
+        for q in functions:
+            for callee in sorted(calls[q] & impure):
+                if (q, callee) not in reported:
+                    reported.add((q, callee))
+                    out.append(Result(f"{q}:purity:calls-impure-function:{callee.rsplit('.', 1)[1]}", False, fn_nodes[q].lineno,
+                                      f"{callee} keeps or reads state between calls (see its own purity obligation)"))
+                    if q not in impure:
+                        impure.add(q)
+                        changed = True
     return out, functions
